@@ -85,6 +85,24 @@ Theorem C14_interleave_lock :
 Proof. exact lock_file_perm. Qed.
 Print Assumptions C14_interleave_lock.
 
+(* the lock file stores a pass phrase; the code makes a fresh one (uuid1) in every work package.  A contender whose pass
+   phrase differs from the stored one is refused in EVERY state: a work package that arrives while another is inside its
+   critical section (its pass phrase verified in the lock file) stays outside ... *)
+Theorem C14_distinct_pass_excludes :
+  forall pass early st a b,
+  pass a <> pass b -> lock st = Some (pass a) -> phases st b = PIdle -> lstep_pass pass early st b Step = st.
+Proof. exact other_pass_refused. Qed.
+Print Assumptions C14_distinct_pass_excludes.
+
+(* ... and with one pass phrase shared by the work packages it is let in at once: both hold the lock (same schedule:
+   distinct pass phrases keep work package 1 polling) *)
+Theorem C14_shared_pass_refuted :
+  let d := lrun_pass (fun t => t) true linit overlap_schedule in
+  let s := lrun_pass (fun _ => 7) true linit overlap_schedule in
+  (phases d 0 = PHolding /\ phases d 1 = PIdle) /\ (phases s 0 = PHolding /\ phases s 1 = PHolding).
+Proof. exact shared_pass_no_exclusion. Qed.
+Print Assumptions C14_shared_pass_refuted.
+
 (* an iteration that fails removes its own row and nothing else *)
 Theorem C14_failure_local :
   forall (A : Type) (sim : nat -> option A) t0 order,
@@ -148,3 +166,8 @@ Example C14_example_sampled_inputs :
   /\ file_lines (input_file_pinned ("Reservoir Life Cycle, 25" ++ String NLc "") [("Reservoir Area", "81.5")])
   = ["Reservoir Life Cycle, 25"; "Reservoir Area, 81.5"; ""].
 Proof. split; vm_compute; reflexivity. Qed.
+
+Example C14_example_pass_exclusion :   (* hypotheses of C14_distinct_pass_excludes met by the state after work package 0 acquired *)
+  let st := lrun_pass (fun t => t) true linit [(0, Step); (0, Step); (0, Step)] in
+  lock st = Some 0 /\ phases st 1 = PIdle /\ lstep_pass (fun t => t) true st 1 Step = st.
+Proof. cbn. repeat split. Qed.
